@@ -265,6 +265,7 @@ func main() {
 		r.Phase(fmt.Sprintf("1-deviation mutants (substitute/insert all 256 byte values, delete) of %d valid numerals", len(bases)), "complete for 1 deviation", func() {
 			r.Parallel(int64(len(bases)), 1, func(w *mc.W, i int64) {
 				mc.Mutations1([]byte(bases[i]), mc.AllBytes, func(m []byte) { one(w, m) })
+				mc.MutationsTok([]byte(bases[i]), mc.Lookalikes, func(m []byte) { one(w, m) })
 				one(w, []byte(bases[i]+"\n"))
 			})
 		})
